@@ -114,8 +114,40 @@ pub struct RunOut {
     pub res: Result<Vec<(i128, SimEvent)>, &'static str>,
 }
 
-/// Run the real simulator once.
+/// set when a run did not return within the watchdog limit (its thread is still spinning)
+pub static TIMED_OUT: std::sync::atomic::AtomicBool = std::sync::atomic::AtomicBool::new(false);
+
+/// watchdog limit for one call of the simulator
+const WATCHDOG_SECS: u64 = 20;
+
+/// Run the real simulator once, in its own thread so that a run that never returns (a hang is a
+/// C19 violation, not a reason for the harness to hang) can be reported.
 pub fn run_once(c: &SimCase, r: &RunSpec) -> RunOut {
+    if TIMED_OUT.load(std::sync::atomic::Ordering::SeqCst) {
+        // a previous run is still spinning in the background: do not start more work
+        return RunOut { log: vec![], res: Err("skipped-after-timeout") };
+    }
+    let (tx, rx) = std::sync::mpsc::channel();
+    let c2 = c.clone();
+    let r2 = r.clone();
+    let builder = std::thread::Builder::new().stack_size(64 << 20);
+    let handle = builder.spawn(move || {
+        let out = run_once_here(&c2, &r2);
+        let _ = tx.send(out);
+    });
+    if handle.is_err() {
+        return run_once_here(c, r);
+    }
+    match rx.recv_timeout(Duration::from_secs(WATCHDOG_SECS)) {
+        Ok(out) => out,
+        Err(_) => {
+            TIMED_OUT.store(true, std::sync::atomic::Ordering::SeqCst);
+            RunOut { log: vec![], res: Err("timeout") }
+        }
+    }
+}
+
+fn run_once_here(c: &SimCase, r: &RunSpec) -> RunOut {
     let delay = Duration::from_nanos(c.delay_ns);
     let text = trace_string(&c.trace);
     maybenot::verif::enable(true);
@@ -986,6 +1018,11 @@ pub fn cmd(sub: &str, args: &[String], w: &mut dyn Write) -> bool {
                 match gen_kind(&kind, &mut cp, id) {
                     Some(c) => {
                         let _ = w.write_all(run_case(&c).as_bytes());
+                        if TIMED_OUT.load(std::sync::atomic::Ordering::SeqCst) {
+                            // a simulator call is still spinning: stop here, the case above reports it
+                            let _ = w.flush();
+                            std::process::exit(0);
+                        }
                     }
                     None => {
                         eprintln!("unknown sim kind {kind}");
@@ -1010,6 +1047,10 @@ pub fn cmd(sub: &str, args: &[String], w: &mut dyn Write) -> bool {
             for mut c in parse_cases(&text) {
                 make_safe(&mut c);
                 let _ = w.write_all(run_case(&c).as_bytes());
+                if TIMED_OUT.load(std::sync::atomic::Ordering::SeqCst) {
+                    let _ = w.flush();
+                    std::process::exit(0);
+                }
             }
             true
         }
